@@ -485,6 +485,30 @@ fn regalloc_sites(r: &mut Rep) {
     }
 }
 
+/// the same object used 70,000 times: call number k behaves like call number 1 (no counter, cache or warm-up effect)
+fn repetition(r: &mut Rep) {
+    macro_rules! rep {
+        ($ty:ty, $bits:expr, $mask:expr) => {{
+            let mut p = Port::<$ty>::new(0x3f8);
+            let mut q = PortWriteOnly::<$ty>::new(0x3f9);
+            for k in 0..70_000u32 {
+                let v = k.wrapping_mul(0x9e37_79b9) ^ 0x5a5a_a5a5;
+                cpu().port_in = v;
+                let (rv, ev) = one(false, || unsafe { p.read() });
+                let (_, ev2) = one(false, || unsafe { q.write((v >> 3) as $ty) });
+                r.transitions += 2;
+                if ev != [Ev::In(0x3f8, $bits, v & $mask)] || rv != Ok((v & $mask) as $ty) || ev2 != [Ev::Out(0x3f9, $bits, (v >> 3) & $mask)] {
+                    r.viol(&format!("C18|Port<u{}>|call-number-k-differs-from-the-first-call", $bits), &format!("portrepeat {} {}", $bits, k), &format!("{:x?} {:x?} {:x?}", rv, ev, ev2));
+                    break;
+                }
+            }
+        }};
+    }
+    rep!(u8, 8, 0xff);
+    rep!(u16, 16, 0xffff);
+    rep!(u32, 32, 0xffff_ffff);
+}
+
 pub fn run(a: &Args) {
     crate::simcpu::init();
     let mut r = Rep::new("C18", "ports");
@@ -493,6 +517,8 @@ pub fn run(a: &Args) {
         fault_mode_on();
         if t[0] == "port" {
             port_case(&mut r, t[1].parse().unwrap(), t[4] == "true");
+        } else if t[0] == "portrepeat" {
+            repetition(&mut r);
         } else if t[0] == "portsite" {
             regalloc_sites(&mut r);
         } else if t[0] == "portseq" {
@@ -534,6 +560,9 @@ pub fn run(a: &Args) {
         guarded(&mut r, "C18|PartialEq/Clone|unexpected-panic", || "porteq".into(), |r| eq_clone(r));
         guarded(&mut r, "C18|Clone|unexpected-panic", || "portcloneaccess".into(), |r| clone_access(r));
         guarded(&mut r, "C18|Port|unexpected-panic", || "portsite".into(), |r| regalloc_sites(r));
+    }
+    if a.shard == 1 % a.nshards {
+        guarded(&mut r, "C18|Port|unexpected-panic", || "portrepeat".into(), |r| repetition(r));
     }
     r.states = r.evals;
     r.exhaustive = true;
